@@ -310,6 +310,17 @@ def d3(ctx, prog):
     return n
 
 
+def _searchsorted(a, k):
+    """numpy.searchsorted on a literal sorted list and an integer (side='left' unless stated)"""
+    import bisect
+    from .. import confinterp as cf
+    seq, v = a[0], a[1]
+    if not (isinstance(seq, (list, tuple)) and all(isinstance(x, int) for x in seq) and isinstance(v, int)):
+        raise cf.Unknown('searchsorted on non-literal operands')
+    side = k.get('side', a[2] if len(a) > 2 else 'left')
+    return bisect.bisect_right(list(seq), v) if side == 'right' else bisect.bisect_left(list(seq), v)
+
+
 def d4(ctx, prog):
     """automatic class set: _initialize is partially evaluated (sa.confinterp) with no class set declared, for every admitted
     first-batch maximum 0..255 (minimum 0): the class set built must be arange(n) with n > maximum, i.e. contain every value the
@@ -327,7 +338,8 @@ def d4(ctx, prog):
         it = cf.Interp(prog)
         it.ext_stubs = {'numpy.nanmax': lambda a, k: mx, 'numpy.max': lambda a, k: mx, 'numpy.amax': lambda a, k: mx,
                         'numpy.nanmin': lambda a, k: mn, 'numpy.min': lambda a, k: mn, 'numpy.amin': lambda a, k: mn,
-                        'numpy.arange': lambda a, k: ('arange',) + tuple(a)}
+                        'numpy.arange': lambda a, k: ('arange',) + tuple(a),
+                        'numpy.searchsorted': _searchsorted}
         o = cf.Obj(ci, partitions=None)
         traces = cf.Sym('traces', attrs={'shape': (cf.Sym('n'), cf.Sym('s'))})
         data = cf.Sym('data', attrs={'shape': (cf.Sym('n'), cf.Sym('w'))})
